@@ -88,6 +88,7 @@ def main():
         only = args[args.index("--only") + 1]
     if "--tier" in args:
         tier = args[args.index("--tier") + 1]
+    rnd = args[args.index("--round") + 1] if "--round" in args else None     # e.g. r10: ids containing -r10
     st = sh(["git", "-C", "/repo", "status", "--porcelain", "--untracked-files=no"]).stdout.decode()
     if st.strip():
         print("refusing: /repo has uncommitted changes:\n" + st)
@@ -97,6 +98,8 @@ def main():
     results = json.load(open(res_path)) if os.path.exists(res_path) else {}
     ids = sorted(d for d in os.listdir(os.path.join(VERIF, "seeded"))
                  if os.path.isdir(os.path.join(VERIF, "seeded", d)))
+    if rnd:
+        ids = [i for i in ids if ("-%sm" % rnd) in i or ("-%sa" % rnd) in i]
     if sh_:
         ids = ids[sh_[0]::sh_[1]]
     missed = []
